@@ -1353,12 +1353,19 @@ class ContactHandler(Messenger, dbus.service.Object):
                 self.recv_bundle_intermediate(
                     str(self._rx_tmp.transfer_id), recv_length)
 
+    def _tx_is_started(self, item):
+        ''' Determine if any segment of a transfer has been sent. '''
+        return item is self._tx_tmp or item in self._tx_pend_ack
+
     def recv_xfer_ack(self, transfer_id, flags, length):
         Messenger.recv_xfer_ack(self, transfer_id, flags, length)
 
         item = self._tx_map.get(transfer_id)
-        if item is None:
-            # Not a transfer of this session
+        if item is None or not self._tx_is_started(item):
+            # Not a transfer of this session, or nothing of it has been sent
+            raise RejectError(messages.RejectMsg.Reason.UNEXPECTED)
+        if flags & messages.TransferSegment.Flag.END and item not in self._tx_pend_ack:
+            # The final segment has not been sent
             raise RejectError(messages.RejectMsg.Reason.UNEXPECTED)
 
         if self._config.modulate_target_ack_time is not None:
@@ -1391,10 +1398,11 @@ class ContactHandler(Messenger, dbus.service.Object):
     def recv_xfer_refuse(self, transfer_id, reason):
         Messenger.recv_xfer_refuse(self, transfer_id, reason)
 
-        item = self._tx_map.pop(transfer_id, None)
-        if item is None:
-            # Not a transfer of this session
+        item = self._tx_map.get(transfer_id)
+        if item is None or not self._tx_is_started(item):
+            # Not a transfer of this session, or nothing of it has been sent
             raise RejectError(messages.RejectMsg.Reason.UNEXPECTED)
+        self._tx_map.pop(transfer_id)
         self.send_bundle_finished(
             str(transfer_id),
             item.ack_length,
